@@ -39,7 +39,9 @@ def gen_script(rng, overlap):
     handler = rng.random() < 0.7
     dep_fail = rng.random() < 0.15
     res = rng.choice(['success', 'success', 'alt', 'error', 'crash'])
-    script = {'a': {'deploy': {'fail': dep_fail, 'wait_gate': 'dep' if rng.random() < 0.5 else ''},
+    # a deployment that succeeds but whose connection cannot be read from / written to: the step fails to START
+    start_fail = '' if dep_fail or rng.random() >= 0.15 else rng.choice(['fail_read', 'fail_write'])
+    script = {'a': {'deploy': dict({'fail': dep_fail, 'wait_gate': 'dep' if rng.random() < 0.5 else ''}, **({start_fail: True} if start_fail else {})),
                     'exec': {'out': res if res != 'crash' else 'success', 'crash': res == 'crash', 'wait_gate': 'res',
                              'on_cancel': rng.choice(['', '', 'ignore'])}}}
     pool = [{'op': 'provide', 'stage': 'deploy'}, {'op': 'provide', 'stage': 'enabling', 'val': rng.random() < 0.8},
@@ -112,6 +114,23 @@ def close_during_completion_scripts(rng, n):
         sc = {'pstep': 'work' if handler else 'nowork', 'src': 'a', 'script': script, 'actions': acts, 'overlap': True, 'timeout_ms': 20000,
               'schedule': {'stalls': [{'point': 'ev:Notif', 'nth': 0, 'ms': rng.choice([6, 10, 15])}]}}
         out.append((sc, handler))
+    return out
+
+
+def start_failure_scripts(rng, n):
+    """the deployment succeeds but the step cannot START (the connection cannot be read from, or written to): one completion
+    (crashed), every stage either finished or declared impossible - never both"""
+    out = []
+    for k in range(n):
+        fault = ['fail_read', 'fail_write'][k % 2]
+        handler = (k // 2) % 2 == 0
+        acts = [{'op': 'provide', 'stage': 'deploy', 'lane': 0}, {'op': 'provide', 'stage': 'enabling', 'val': True, 'lane': 0},
+                {'op': 'provide', 'stage': 'starting', 'lane': 0}]
+        if k % 3 == 2:
+            acts.append({'op': 'sleep', 'ms': rng.choice([5, 20]), 'lane': 1})
+            acts.append({'op': rng.choice(['close', 'forceclose']), 'id': 'c1', 'lane': 1})
+        script = {'a': {'deploy': {fault: True}, 'exec': {'out': 'success', 'delay_ms': 1}}}
+        out.append(({'pstep': 'work' if handler else 'nowork', 'src': 'a', 'script': script, 'actions': acts, 'overlap': k % 3 == 2, 'timeout_ms': 20000}, handler))
     return out
 
 
@@ -209,7 +228,7 @@ def run(ctx):
     rng = random.Random(ctx.seed * 104729 + 12)
     binary = ctx.binary()
     n = 40 if ctx.quick else 600
-    scs = [gen_script(rng, overlap=(i % 3 == 2)) for i in range(n)] + overlapped_close_scripts(rng, 8 if ctx.quick else 80) + close_during_completion_scripts(rng, 12 if ctx.quick else 90)
+    scs = [gen_script(rng, overlap=(i % 3 == 2)) for i in range(n)] + overlapped_close_scripts(rng, 8 if ctx.quick else 80) + close_during_completion_scripts(rng, 12 if ctx.quick else 90) + start_failure_scripts(rng, 4 if ctx.quick else 24)
     with cf.ThreadPoolExecutor(max_workers=max(2, vlib.NCPU - 2)) as ex:
         results = list(ex.map(lambda a: run_step(binary, a[1][0], ctx.work, 'st%04d' % a[0]), enumerate(scs)))
     cases = []
